@@ -218,7 +218,10 @@ fn check_pair(rng: &mut Rng, obj: Obj, sh: Sh, p: &[f32], t: &[f32], fam: &str, 
         for i in picks {
             let pd: Vec<D> = p.iter().enumerate().map(|(j, v)| if i == j { D::var(*v as f64) } else { D::c(*v as f64) }).collect();
             let l = obj_loss(obj, &pd, &tf);
-            if (grad[i] as f64 - l.d).abs() > 1e-4 * l.d.abs() + 1e-30 {
+            // tolerance relative to the magnitude of the terms the derivative is summed from
+            // (`m`): where the terms cancel (BCE at prediction == target) the dual number is left
+            // with rounding residue of the order 1e-16 x m, the library with an exact 0
+            if (grad[i] as f64 - l.d).abs() > 1e-4 * l.d.abs() + 1e-5 * l.m + 1e-30 {
                 out.viol(&format!("obj:{}:grad:not-derivative", obj.name()), format!("{} gradient[{}] = {:e} but d(loss)/d(prediction) = {:e}", obj.name(), i, grad[i], l.d), detail());
                 break;
             }
